@@ -346,6 +346,9 @@ pub struct Cfg {
     /// the factory starts with a discard handler that is replaced through UpdateSettings before the first
     /// event; whatever is discarded afterwards must reach the new one
     pub late_handler: bool,
+    /// the discard limit is a Dynamic one: it starts at the limit of `discard` and its controller answers this value
+    /// from the factory's first ping tick (10 s) on; the history may let that much time pass (AdvanceLong)
+    pub dynamic_to: Option<usize>,
 }
 
 impl Cfg {
@@ -360,7 +363,7 @@ impl Cfg {
             (true, false) => "/lean",
             _ => "",
         };
-        format!("{:?}/{:?}/w{}/d{}{}{mode}{q}{}{}", self.routing, self.discard, self.workers, self.depth, if self.ttl { "/ttl" } else { "" }, if self.set_limit { "/setlimit" } else { "" }, if self.flow_only { "/flow3keys".to_string() } else if self.fine_deaths { "/fine-deaths".to_string() } else if let Some(s) = self.script { format!("/script-{}", s.replace(',', "-")) } else if self.slow_stops { "/slow-stops".to_string() } else if self.late_handler { "/handler-replaced".to_string() } else { String::new() }).replace(['(', ')'], "")
+        format!("{:?}/{:?}/w{}/d{}{}{mode}{q}{}{}", self.routing, self.discard, self.workers, self.depth, if self.ttl { "/ttl" } else { "" }, if self.set_limit { "/setlimit" } else { "" }, if self.flow_only { "/flow3keys".to_string() } else if self.fine_deaths { "/fine-deaths".to_string() } else if let Some(s) = self.script { format!("/script-{}", s.replace(',', "-")) } else if self.slow_stops { "/slow-stops".to_string() } else if self.late_handler { "/handler-replaced".to_string() } else if let Some(t) = self.dynamic_to { format!("/dynamic-to-{t}") } else { String::new() }).replace(['(', ')'], "")
     }
     pub fn factory_queueing(&self) -> bool {
         matches!(self.routing, Routing::Sticky | Routing::Queuer | Routing::RlQueuer)
@@ -400,10 +403,19 @@ async fn spawn_factory<R: Router<Key, JobMsg>>(router: R, cfg: Cfg, world: &Worl
 }
 
 async fn spawn_factory_q<R: Router<Key, JobMsg>, Q: Queue<Key, JobMsg>>(router: R, queue: Q, cfg: Cfg, world: &World) -> (FRef, ractor::concurrency::JoinHandle<()>) {
-    let discard_settings = match cfg.discard {
-        Discard::None => DiscardSettings::None,
-        Discard::Newest(l) => DiscardSettings::Static { limit: l, mode: DiscardMode::Newest },
-        Discard::Oldest(l) => DiscardSettings::Static { limit: l, mode: DiscardMode::Oldest },
+    struct Ctl(usize);
+    impl ractor::factory::DynamicDiscardController for Ctl {
+        fn compute(&mut self, _current: usize) -> futures::future::BoxFuture<'_, usize> {
+            let v = self.0;
+            Box::pin(async move { v })
+        }
+    }
+    let discard_settings = match (cfg.discard, cfg.dynamic_to) {
+        (Discard::None, _) => DiscardSettings::None,
+        (Discard::Newest(l), None) => DiscardSettings::Static { limit: l, mode: DiscardMode::Newest },
+        (Discard::Oldest(l), None) => DiscardSettings::Static { limit: l, mode: DiscardMode::Oldest },
+        (Discard::Newest(l), Some(t)) => DiscardSettings::Dynamic { limit: l, mode: DiscardMode::Newest, updater: Box::new(Ctl(t)) },
+        (Discard::Oldest(l), Some(t)) => DiscardSettings::Dynamic { limit: l, mode: DiscardMode::Oldest, updater: Box::new(Ctl(t)) },
     };
     let args = FactoryArguments::builder()
         .worker_builder(Box::new(Builder(world.clone())))
@@ -452,6 +464,8 @@ pub enum Event {
     ResizeZero(bool),
     Drain,
     Advance,
+    /// 10.1 s pass: the factory's ping tick fires (a Dynamic discard limit is recomputed there)
+    AdvanceLong,
     /// UpdateSettings: a new static discard limit (same mode)
     SetLimit(usize),
     /// the next discard callback kills worker `w` and waits until it is gone (inside the factory's handler)
@@ -627,6 +641,9 @@ pub async fn run(cfg: Cfg) -> Run {
         if cfg.ttl || cfg.rate_limited() {
             en.push(Event::Advance);
         }
+        if cfg.dynamic_to.is_some() && !history.contains(&Event::AdvanceLong) {
+            en.push(Event::AdvanceLong);
+        }
         // debugging aid: FACTORY_HISTORY="D0,D0,KF0,D0" pins the history
         let pinned = std::env::var("FACTORY_HISTORY").ok().or(cfg.script.map(|s| s.to_string())).and_then(|h| {
             h.split(',').nth(step).map(|t| match t {
@@ -647,6 +664,7 @@ pub async fn run(cfg: Cfg) -> Run {
                 "Z1" => Event::ResizeZero(true),
                 "DR" => Event::Drain,
                 "A" => Event::Advance,
+                "AL" => Event::AdvanceLong,
                 "ARM0" => Event::ArmKillOnDiscard(0),
                 "ARM1" => Event::ArmKillOnDiscard(1),
                 "SS0" => Event::StopSlowly(0),
@@ -741,6 +759,17 @@ pub async fn run(cfg: Cfg) -> Run {
                 let _ = f.cast(FactoryMessage::DrainRequests);
             }
             Event::Advance => vsched::sleep(Duration::from_millis(150)).await,
+            Event::AdvanceLong => {
+                vsched::sleep(Duration::from_millis(10_100)).await;
+                // from its first tick on the controller answers the new limit. The factory's own queue follows at once;
+                // a worker's copy follows with its answer to the ping, which a worker that is inside a job does not
+                // give: for worker-queued routing the new limit only counts if the worker was idle at the tick
+                // (otherwise the bound stays the larger, initial one)
+                if cfg.factory_queueing() || world.in_progress().is_empty() {
+                    cur_limit = cfg.dynamic_to;
+                    limits.push((history.len() - 1, cur_limit));
+                }
+            }
             Event::ArmKillOnDiscard(w) => {
                 if let Some(c) = current_cell(w, &world, &f) {
                     deaths += 1;
@@ -918,10 +947,10 @@ pub fn plan(property: &'static str, tier: &str) -> Plan {
                 // the big ones are split by their first event (each of them then shards by its next choice):
                 // the subtrees below the first event are very uneven in size
                 for first in ["D0", "D1", "R1", "R3", "DR", "K0", "K1"] {
-                    cfgs.push((Cfg { routing: r, discard: *d, workers: 2, depth, ttl: false, lean: false, burst: false, queue: QueueKind::Default, set_limit: false, flow_only: false, fine_deaths: false, script: Some(first), slow_stops: false, late_handler: false }, bound));
+                    cfgs.push((Cfg { routing: r, discard: *d, workers: 2, depth, ttl: false, lean: false, burst: false, queue: QueueKind::Default, set_limit: false, flow_only: false, fine_deaths: false, script: Some(first), slow_stops: false, late_handler: false, dynamic_to: None }, bound));
                 }
             } else {
-                cfgs.push((Cfg { routing: r, discard: *d, workers: 2, depth, ttl: false, lean: false, burst: false, queue: QueueKind::Default, set_limit: false, flow_only: false, fine_deaths: false, script: None, slow_stops: false, late_handler: false }, bound));
+                cfgs.push((Cfg { routing: r, discard: *d, workers: 2, depth, ttl: false, lean: false, burst: false, queue: QueueKind::Default, set_limit: false, flow_only: false, fine_deaths: false, script: None, slow_stops: false, late_handler: false, dynamic_to: None }, bound));
             }
         }
     }
@@ -936,15 +965,15 @@ pub fn plan(property: &'static str, tier: &str) -> Plan {
                 continue;
             }
         }
-        cfgs.push((Cfg { routing: r, discard: Discard::None, workers: 2, depth: if thorough { 6 } else { 5 }, ttl: false, lean: true, burst: false, queue: QueueKind::Default, set_limit: false, flow_only: false, fine_deaths: false, script: None, slow_stops: false, late_handler: false }, 0));
+        cfgs.push((Cfg { routing: r, discard: Discard::None, workers: 2, depth: if thorough { 6 } else { 5 }, ttl: false, lean: true, burst: false, queue: QueueKind::Default, set_limit: false, flow_only: false, fine_deaths: false, script: None, slow_stops: false, late_handler: false, dynamic_to: None }, 0));
     }
     // bursts: requests that sit in the factory's mailbox together (a resize right behind a resize, a
     // dispatch right behind a drain request, ...), so the factory handles the second before the workers
     // reacted to the first
     for r in [Routing::Queuer, Routing::KeyPersistent, Routing::Sticky, Routing::RoundRobin] {
-        cfgs.push((Cfg { routing: r, discard: Discard::None, workers: 2, depth: if thorough { 5 } else { 4 }, ttl: false, lean: true, burst: true, queue: QueueKind::Default, set_limit: false, flow_only: false, fine_deaths: false, script: None, slow_stops: false, late_handler: false }, 0));
+        cfgs.push((Cfg { routing: r, discard: Discard::None, workers: 2, depth: if thorough { 5 } else { 4 }, ttl: false, lean: true, burst: true, queue: QueueKind::Default, set_limit: false, flow_only: false, fine_deaths: false, script: None, slow_stops: false, late_handler: false, dynamic_to: None }, 0));
         if property == "C15" {
-            cfgs.push((Cfg { routing: r, discard: Discard::Newest(1), workers: 2, depth: if thorough { 4 } else { 3 }, ttl: false, lean: true, burst: true, queue: QueueKind::Default, set_limit: false, flow_only: false, fine_deaths: false, script: None, slow_stops: false, late_handler: false }, 0));
+            cfgs.push((Cfg { routing: r, discard: Discard::Newest(1), workers: 2, depth: if thorough { 4 } else { 3 }, ttl: false, lean: true, burst: true, queue: QueueKind::Default, set_limit: false, flow_only: false, fine_deaths: false, script: None, slow_stops: false, late_handler: false, dynamic_to: None }, 0));
         }
     }
     // the priority queue (factory-queued routing only: worker queues are plain FIFOs): urgent key b
@@ -954,7 +983,7 @@ pub fn plan(property: &'static str, tier: &str) -> Plan {
             if property != "C15" && d != Discard::None && !thorough {
                 continue;
             }
-            cfgs.push((Cfg { routing: r, discard: d, workers: 1, depth: if thorough { 6 } else { 4 }, ttl: false, lean: true, burst: false, queue: q, set_limit: false, flow_only: false, fine_deaths: false, script: None, slow_stops: false, late_handler: false }, 0));
+            cfgs.push((Cfg { routing: r, discard: d, workers: 1, depth: if thorough { 6 } else { 4 }, ttl: false, lean: true, burst: false, queue: q, set_limit: false, flow_only: false, fine_deaths: false, script: None, slow_stops: false, late_handler: false, dynamic_to: None }, 0));
         }
     }
     // plain job flow with three keys, longer: several same-key jobs waiting while every worker is busy
@@ -962,17 +991,17 @@ pub fn plan(property: &'static str, tier: &str) -> Plan {
         if !thorough && !(matches!(r, Routing::Sticky | Routing::KeyPersistent) || property == "C13") {
             continue;
         }
-        cfgs.push((Cfg { routing: r, discard: Discard::None, workers: 2, depth: if thorough { 8 } else { 6 }, ttl: false, lean: true, burst: false, queue: QueueKind::Default, set_limit: false, flow_only: true, fine_deaths: false, script: None, slow_stops: false, late_handler: false }, 0));
+        cfgs.push((Cfg { routing: r, discard: Discard::None, workers: 2, depth: if thorough { 8 } else { 6 }, ttl: false, lean: true, burst: false, queue: QueueKind::Default, set_limit: false, flow_only: true, fine_deaths: false, script: None, slow_stops: false, late_handler: false, dynamic_to: None }, 0));
     }
     // a leaky-bucket rate limiter in front of the router; the history may let 150 ms pass (refill to the cap)
     for r in [Routing::RlQueuer, Routing::RlKeyPersistent] {
-        cfgs.push((Cfg { routing: r, discard: Discard::None, workers: 2, depth: if thorough { 6 } else { 5 }, ttl: false, lean: true, burst: false, queue: QueueKind::Default, set_limit: false, flow_only: false, fine_deaths: false, script: None, slow_stops: false, late_handler: false }, 0));
+        cfgs.push((Cfg { routing: r, discard: Discard::None, workers: 2, depth: if thorough { 6 } else { 5 }, ttl: false, lean: true, burst: false, queue: QueueKind::Default, set_limit: false, flow_only: false, fine_deaths: false, script: None, slow_stops: false, late_handler: false, dynamic_to: None }, 0));
     }
     // a worker dies right after it reported completion, at the granularity of the factory's own channel
     // operations (worker-queued routing: the next job of its queue is dispatched while it is going down)
     if property != "C14" || thorough {
         for r in [Routing::KeyPersistent, Routing::RoundRobin] {
-            cfgs.push((Cfg { routing: r, discard: Discard::None, workers: 1, depth: 4, ttl: false, lean: true, burst: false, queue: QueueKind::Default, set_limit: false, flow_only: false, fine_deaths: true, script: None, slow_stops: false, late_handler: false }, if thorough { 3 } else { 2 }));
+            cfgs.push((Cfg { routing: r, discard: Discard::None, workers: 1, depth: 4, ttl: false, lean: true, burst: false, queue: QueueKind::Default, set_limit: false, flow_only: false, fine_deaths: true, script: None, slow_stops: false, late_handler: false, dynamic_to: None }, if thorough { 3 } else { 2 }));
         }
     }
     // scripted histories: a worker is killed from inside the factory's own handler (in the callback that
@@ -980,9 +1009,18 @@ pub fn plan(property: &'static str, tier: &str) -> Plan {
     for r in [Routing::KeyPersistent, Routing::RoundRobin] {
         for script in ["D1,D0,D1,A,ARM0,C0", "D1,D0,D1,A,DR,ARM0,C0", "D1,D0,D1,D1,A,ARM0,C0,C0"] {
             cfgs.push((
-                Cfg { routing: r, discard: Discard::None, workers: 1, depth: script.split(',').count(), ttl: true, lean: true, burst: false, queue: QueueKind::Default, set_limit: false, flow_only: false, fine_deaths: false, script: Some(script), slow_stops: false, late_handler: false },
+                Cfg { routing: r, discard: Discard::None, workers: 1, depth: script.split(',').count(), ttl: true, lean: true, burst: false, queue: QueueKind::Default, set_limit: false, flow_only: false, fine_deaths: false, script: Some(script), slow_stops: false, late_handler: false, dynamic_to: None },
                 if thorough { 2 } else { 1 },
             ));
+        }
+    }
+    // a Dynamic discard limit that its controller lowers at the factory's first ping tick: the workers' own queues
+    // (worker-queued routing) and the factory queue follow the new limit
+    if property == "C15" || thorough {
+        for r in [Routing::KeyPersistent, Routing::Queuer] {
+            for (d, to) in [(Discard::Newest(3), 1usize), (Discard::Oldest(3), 1), (Discard::Newest(2), 0)] {
+                cfgs.push((Cfg { routing: r, discard: d, workers: 1, depth: if thorough { 7 } else { 6 }, ttl: false, lean: true, burst: false, queue: QueueKind::Default, set_limit: false, flow_only: true, fine_deaths: false, script: None, slow_stops: false, late_handler: false, dynamic_to: Some(to) }, 0));
+            }
         }
     }
     // scripted histories with requests for a pool of zero workers (ignored: the pool keeps its size and goes on
@@ -991,7 +1029,7 @@ pub fn plan(property: &'static str, tier: &str) -> Plan {
         for r in [Routing::Queuer, Routing::KeyPersistent] {
             for script in ["Z1,D0,D1,C0", "D0,Z0,D1,C0,C1", "R1,Z1,D0,D0,C0", "D0,D1,Z1,C0,C1,D0", "Z0,R3,Z1,D0"] {
                 cfgs.push((
-                    Cfg { routing: r, discard: Discard::None, workers: 2, depth: script.split(',').count(), ttl: false, lean: true, burst: false, queue: QueueKind::Default, set_limit: false, flow_only: false, fine_deaths: false, script: Some(script), slow_stops: false, late_handler: false },
+                    Cfg { routing: r, discard: Discard::None, workers: 2, depth: script.split(',').count(), ttl: false, lean: true, burst: false, queue: QueueKind::Default, set_limit: false, flow_only: false, fine_deaths: false, script: Some(script), slow_stops: false, late_handler: false, dynamic_to: None },
                     if thorough { 1 } else { 0 },
                 ));
             }
@@ -1004,7 +1042,7 @@ pub fn plan(property: &'static str, tier: &str) -> Plan {
                 if d == Discard::None && property == "C15" {
                     continue;
                 }
-                cfgs.push((Cfg { routing: r, discard: d, workers: 1, depth: if thorough { 5 } else { 4 }, ttl: false, lean: true, burst: false, queue: QueueKind::Default, set_limit: false, flow_only: false, fine_deaths: false, script: None, slow_stops: true, late_handler: false }, 0));
+                cfgs.push((Cfg { routing: r, discard: d, workers: 1, depth: if thorough { 5 } else { 4 }, ttl: false, lean: true, burst: false, queue: QueueKind::Default, set_limit: false, flow_only: false, fine_deaths: false, script: None, slow_stops: true, late_handler: false, dynamic_to: None }, 0));
             }
         }
     }
@@ -1012,28 +1050,28 @@ pub fn plan(property: &'static str, tier: &str) -> Plan {
     if property == "C15" || thorough {
         for r in [Routing::Queuer, Routing::KeyPersistent] {
             for d in [Discard::Newest(1), Discard::Oldest(1)] {
-                cfgs.push((Cfg { routing: r, discard: d, workers: 1, depth: if thorough { 6 } else { 5 }, ttl: false, lean: true, burst: false, queue: QueueKind::Default, set_limit: true, flow_only: false, fine_deaths: false, script: None, slow_stops: false, late_handler: false }, 0));
+                cfgs.push((Cfg { routing: r, discard: d, workers: 1, depth: if thorough { 6 } else { 5 }, ttl: false, lean: true, burst: false, queue: QueueKind::Default, set_limit: true, flow_only: false, fine_deaths: false, script: None, slow_stops: false, late_handler: false, dynamic_to: None }, 0));
             }
         }
     }
     // TTL expiry with time advancing
     for r in [Routing::Queuer, Routing::KeyPersistent] {
-        cfgs.push((Cfg { routing: r, discard: Discard::None, workers: 1, depth: if thorough { 5 } else { 4 }, ttl: true, lean: false, burst: false, queue: QueueKind::Default, set_limit: false, flow_only: false, fine_deaths: false, script: None, slow_stops: false, late_handler: false }, 0));
+        cfgs.push((Cfg { routing: r, discard: Discard::None, workers: 1, depth: if thorough { 5 } else { 4 }, ttl: true, lean: false, burst: false, queue: QueueKind::Default, set_limit: false, flow_only: false, fine_deaths: false, script: None, slow_stops: false, late_handler: false, dynamic_to: None }, 0));
     }
     // TTL expiry at the head of a priority queue (the urgent key carries the TTL, jobs of the other key wait behind)
     for r in [Routing::Queuer, Routing::Sticky] {
         if property == "C13" || thorough {
-            cfgs.push((Cfg { routing: r, discard: Discard::None, workers: 1, depth: if thorough { 6 } else { 5 }, ttl: true, lean: true, burst: false, queue: QueueKind::Priority, set_limit: false, flow_only: false, fine_deaths: false, script: None, slow_stops: false, late_handler: false }, 0));
+            cfgs.push((Cfg { routing: r, discard: Discard::None, workers: 1, depth: if thorough { 6 } else { 5 }, ttl: true, lean: true, burst: false, queue: QueueKind::Priority, set_limit: false, flow_only: false, fine_deaths: false, script: None, slow_stops: false, late_handler: false, dynamic_to: None }, 0));
         }
     }
     // the discard handler is replaced through UpdateSettings before the first event: expiry in the shared
     // queue, in a worker's own queue (key-bound and sticky routing) and load shedding reach the new one
     if property == "C13" || thorough {
         for r in [Routing::Sticky, Routing::Queuer, Routing::KeyPersistent] {
-            cfgs.push((Cfg { routing: r, discard: Discard::None, workers: 1, depth: if thorough { 5 } else { 4 }, ttl: true, lean: false, burst: false, queue: QueueKind::Default, set_limit: false, flow_only: false, fine_deaths: false, script: None, slow_stops: false, late_handler: true }, 0));
+            cfgs.push((Cfg { routing: r, discard: Discard::None, workers: 1, depth: if thorough { 5 } else { 4 }, ttl: true, lean: false, burst: false, queue: QueueKind::Default, set_limit: false, flow_only: false, fine_deaths: false, script: None, slow_stops: false, late_handler: true, dynamic_to: None }, 0));
         }
         for r in [Routing::Sticky, Routing::KeyPersistent] {
-            cfgs.push((Cfg { routing: r, discard: Discard::Oldest(1), workers: 2, depth: 4, ttl: false, lean: true, burst: false, queue: QueueKind::Default, set_limit: false, flow_only: false, fine_deaths: false, script: None, slow_stops: false, late_handler: true }, 0));
+            cfgs.push((Cfg { routing: r, discard: Discard::Oldest(1), workers: 2, depth: 4, ttl: false, lean: true, burst: false, queue: QueueKind::Default, set_limit: false, flow_only: false, fine_deaths: false, script: None, slow_stops: false, late_handler: true, dynamic_to: None }, 0));
         }
     }
     let mut units = Vec::new();
